@@ -29,7 +29,16 @@ def split_uri(uri, ident):
     return ns, uri[len(ns):]
 
 
-def lookup_oracle(c, out, hist, where):
+def all_identifiers(doc):
+    ids = {}
+    for _, c in containers(doc):
+        for r in c.get_records():
+            if r.identifier is not None:
+                ids.setdefault(r.identifier.uri, r.identifier)
+    return ids
+
+
+def lookup_oracle(c, out, hist, where, elsewhere=None):
     recs = list(c.get_records())
     by_uri = {}
     for r in recs:
@@ -44,6 +53,11 @@ def lookup_oracle(c, out, hist, where):
         probes.append((uri, "printed-name", str(ident)))
         probes.append((uri, "full-uri", uri))
         probes.append((uri, "identifier-object", Identifier(uri)))
+    # identifiers that exist in the enclosing document or a sibling bundle but not in this container
+    for uri, ident in (elsewhere or {}).items():
+        if uri not in by_uri:
+            # (only as a QualifiedName: its printed form is relative to the scope that printed it)
+            probes.append((uri, "present-elsewhere-qname", ident))
     for uri in ("http://a/absent", "http://nowhere/absent"):
         nsuri, local = uri.rsplit("/", 1)[0] + "/", uri.rsplit("/", 1)[1]
         probes.append((uri, "absent-qname", QualifiedName(Namespace("ab9", nsuri), local)))
@@ -184,11 +198,13 @@ class C18(spec.Spec):
                     if d3 is not d2:
                         derived.append((name + "+" + name2, d3))
         for name, d2 in derived:
+            ids = all_identifiers(d2)
             for kind, c in containers(d2):
-                lookup_oracle(c, out, hist, "%s of %s" % (kind, name))
+                lookup_oracle(c, out, hist, "%s of %s" % (kind, name), ids)
                 out.transitions += 1
+        ids = all_identifiers(doc)
         for kind, c in containers(doc):
-            lookup_oracle(c, out, hist, kind)
+            lookup_oracle(c, out, hist, kind, ids)
         if len(out.samples) < 2 and len(hist) >= 3:
             out.samples.append({"history": self.ops(hist)})
 
